@@ -293,7 +293,7 @@ func (fc *FnCtx) exec(st *State, s ast.Stmt, label string) []Outcome {
 			op = "-"
 		}
 		r := Val{"(" + op + " " + v.T + " 1)", v.Ty}
-		fc.overflowCheck(st, r, s.X)
+		r = fc.overflowCheck(st, r, s.X)
 		fc.assign(st, s.X, r)
 		return normal(st)
 	case *ast.AssignStmt:
